@@ -1163,6 +1163,10 @@ type Data struct {
 	denormOngoing bool // true if we are doing denormalizations so avoid ops on them.
 
 	sync.RWMutex // For CAS ops.  TODO: Make more specific (e.g., point locks) for efficiency.
+
+	// elemMu serializes element mutations requested through the API: each one reads the block,
+	// tag and label lists it touches, changes them and writes them back.
+	elemMu sync.Mutex
 }
 
 func (d *Data) Equals(d2 *Data) bool {
@@ -2197,8 +2201,8 @@ func (d *Data) StoreBlocks(ctx *datastore.VersionedCtx, r io.Reader, kafkaOff bo
 		return 0, err
 	}
 
-	// d.Lock()
-	// defer d.Unlock()
+	d.elemMu.Lock()
+	defer d.elemMu.Unlock()
 
 	// Do modifications under a batch.
 	store, err := d.KVStore()
@@ -2264,8 +2268,8 @@ func (d *Data) StoreElements(ctx *datastore.VersionedCtx, r io.Reader, kafkaOff 
 		return err
 	}
 
-	// d.Lock()
-	// defer d.Unlock()
+	d.elemMu.Lock()
+	defer d.elemMu.Unlock()
 
 	dvid.Infof("%d annotation elements received via POST\n", len(elems))
 
@@ -2358,8 +2362,8 @@ func (d *Data) DeleteElement(ctx *datastore.VersionedCtx, pt dvid.Point3d, kafka
 	bcoord := pt.Chunk(blockSize).(dvid.ChunkPoint3d)
 	tk := NewBlockTKey(bcoord)
 
-	// d.Lock()
-	// defer d.Unlock()
+	d.elemMu.Lock()
+	defer d.elemMu.Unlock()
 
 	elems, err := getElements(ctx, tk)
 	if err != nil {
@@ -2434,8 +2438,8 @@ func (d *Data) MoveElement(ctx *datastore.VersionedCtx, from, to dvid.Point3d, k
 	toCoord := to.Chunk(blockSize).(dvid.ChunkPoint3d)
 	toTk := NewBlockTKey(toCoord)
 
-	// d.Lock()
-	// defer d.Unlock()
+	d.elemMu.Lock()
+	defer d.elemMu.Unlock()
 
 	// Alter all stored versions of this annotation using a batch.
 	store, err := d.KVStore()
